@@ -862,6 +862,12 @@ def check_bonferroni(ctx):
         pder -= idx_vars
         sorted_loop = _sorted_enumeration(meth, pder)
         is_holm = sorted_loop is not None
+        # vectorised Holm: the p-values compared are `p[argsort(p)]`
+        argsorted = {n.targets[0].id for n in walk_local(meth.node)
+                     if isinstance(n, ast.Assign) and isinstance(
+                         n.value, ast.Call) and call_name(n.value) ==
+                     'argsort' and isinstance(n.targets[0], ast.Name)}
+        vector_holm = False
         cmps = []
         for node in walk_local(meth.node):
             cmp_expr = None
@@ -913,6 +919,41 @@ def check_bonferroni(ctx):
                     top = par
                 else:
                     break
+            if not is_holm and any(
+                    isinstance(n, ast.Subscript) and isinstance(
+                        n.slice, ast.Name) and n.slice.id in argsorted
+                    for n in ast.walk(cmp_expr)):
+                is_holm = vector_holm = True
+            # the comparison kept in a local that is only ever used negated
+            # (`accepted = p >= levels` ... `logical_not(accepted)`): what
+            # reaches the flags is the negation
+            holder = top
+            while isinstance(parents.get(id(holder)), ast.Call) and \
+                    call_name(parents[id(holder)]) in (
+                        'filled', 'asarray', 'array', 'ravel'):
+                holder = parents[id(holder)]
+            stmt = parents.get(id(holder))
+            if isinstance(stmt, ast.Assign) and len(stmt.targets) == 1 and \
+                    isinstance(stmt.targets[0], ast.Name):
+                nam = stmt.targets[0].id
+                uses = [n for n in walk_local(meth.node)
+                        if isinstance(n, ast.Name) and n.id == nam and
+                        isinstance(n.ctx, ast.Load)]
+
+                def negated(use):
+                    par = parents.get(id(use))
+                    return (isinstance(par, ast.UnaryOp) and isinstance(
+                        par.op, (ast.Not, ast.Invert))) or (
+                            isinstance(par, ast.Call) and call_name(par) in (
+                                'logical_not', 'invert'))
+                if uses and all(negated(u) for u in uses):
+                    top = ast.UnaryOp(op=ast.Not(), operand=top)
+                elif uses and any(negated(u) for u in uses):
+                    ctx.undecided('VERD-TABLE', meth,
+                                  f'{txt(cmp_expr)[:50]} kept in `{nam}`, '
+                                  f'used both negated and as it is',
+                                  at=meth.where(cmp_expr))
+                    continue
             if is_holm:
                 oracle = {'lt': True, 'eq': False, 'gt': False,
                           'unordered': True}
@@ -927,7 +968,10 @@ def check_bonferroni(ctx):
                          lambda e, ponly=ponly: V.mentions(e, ponly),
                          lambda e, lonly=lonly: V.mentions(e, lonly),
                          oracle, what)
-        if is_holm:
+        if is_holm and sorted_loop is None:
+            _check_holm_level_vector(ctx, program, meth, lname)
+            _check_unsort(ctx, meth, pname)
+        elif is_holm:
             _check_holm_level(ctx, meth, sorted_loop, pname, lname, pder)
             _check_unsort(ctx, meth, pname)
         else:
@@ -1053,6 +1097,58 @@ def _sorted_enumeration(meth, pder):
             return (node, txt(node.target.elts[0]),
                     txt(node.target.elts[1]), sorted_by, start, seq)
     return None
+
+
+def _check_holm_level_vector(ctx, program, meth, lname):
+    '''Vectorised Holm: the levels of the ranks 1..m are an array
+    `alpha / d` with d running m, m-1, ..., 1 (`range(m, 0, -1)` /
+    `np.arange(m, 0, -1)`), in the method or in a helper it calls.'''
+    scopes = [meth]
+    for call in calls_in(meth.node):
+        cands, _ = program.resolve_call(meth, call)
+        scopes += [c for c in cands if c.module is meth.module][:1]
+    found = False
+    for scope in scopes:
+        pars = [p for p in scope.params if p not in ('self', 'cls')]
+        for node in ast.walk(scope.node):
+            if not (isinstance(node, ast.BinOp) and isinstance(node.op,
+                                                               ast.Div)):
+                continue
+            if not (isinstance(node.left, ast.Name) and (
+                    node.left.id == lname or (scope is not meth and
+                                              node.left.id in pars))):
+                continue
+            den = node.right
+            rng = None
+            if isinstance(den, ast.Name):
+                # comprehension variable: `alpha / d for d in range(...)`
+                for comp in ast.walk(scope.node):
+                    if isinstance(comp, (ast.ListComp, ast.GeneratorExp)) \
+                            and node in list(ast.walk(comp.elt)) and \
+                            txt(comp.generators[0].target) == den.id:
+                        rng = comp.generators[0].iter
+            elif isinstance(den, ast.Call):
+                rng = den
+            found = True
+            ok = None
+            if isinstance(rng, ast.Call) and call_name(rng) in (
+                    'range', 'arange') and len(rng.args) == 3:
+                stop, step = rng.args[1], rng.args[2]
+                ok = isinstance(stop, ast.Constant) and stop.value == 0 and \
+                    txt(step) in ('-1',) and ('size' in txt(rng.args[0]) or
+                                              'len(' in txt(rng.args[0]) or
+                                              isinstance(rng.args[0],
+                                                         ast.Name))
+            ctx.decide('LEVEL-LIN', scope,
+                       f'Holm levels {txt(node)[:40]} for '
+                       f'{txt(rng)[:40] if rng is not None else "?"}', ok,
+                       at=scope.where(node),
+                       detail='rank k (1-based, increasing p-values) gets '
+                              'alpha / (m - k + 1): denominators m, m-1, '
+                              '..., 1')
+    if not found:
+        ctx.undecided('LEVEL-LIN', meth, 'levels of the vectorised Holm '
+                      'method not found', at=meth.where())
 
 
 def _check_holm_level(ctx, meth, sorted_loop, pname, lname, pder):
